@@ -192,7 +192,7 @@ func (w *c16World) apply(op c16Op) []string {
 				v = append(v, fmt.Sprintf("overwrite=false replaced the entry of %s", kb))
 			}
 		}
-	case "removeFromInstance":
+	case "removeFromInstance", "removeDuringExecute":
 		// handled inside the invariant (instance-local)
 	}
 	return v
@@ -208,6 +208,10 @@ func storeKB2(lib *ast.KnowledgeLibrary, kb c16KBKey, w *bytes.Buffer) (err erro
 }
 
 // invariant checks every knowledge base against the model.
+// midRemove (kb index -> rule name), when set for a step, makes the invariant also run one Execute during
+// which a listener callback removes that rule from the executing instance at the start of the second cycle.
+var c16MidRemove map[int]string
+
 func (w *c16World) invariant(instRemove map[int]string) []string {
 	var v []string
 	for i, kb := range c16KBs {
@@ -298,6 +302,31 @@ func (w *c16World) invariant(instRemove map[int]string) []string {
 					break
 				}
 			}
+			if mid, ok := c16MidRemove[i]; ok && si == 0 {
+				if inst3, ierr := obs.InstanceOf(w.lib, kb.Name, kb.Version); ierr == nil {
+					s3 := st.Copy()
+					dc3, _ := obs.NewDataContext(s3)
+					rec3 := &obs.Recorder{}
+					removedAt := -1
+					rec3.Hook = func(ev *obs.Event) {
+						if ev.Kind == obs.EvBegin && ev.Cycle == 2 && removedAt < 0 {
+							inst3.RemoveRuleEntry(mid)
+							removedAt = len(rec3.Events)
+						}
+					}
+					res3 := obs.Execute(inst3, dc3, obs.RunOpts{MaxCycle: uint64(len(inst3.RuleEntries) + 3), Listeners: listenersOf(rec3)})
+					if res3.Panicked != nil {
+						v = append(v, fmt.Sprintf("%s: Execute panicked when rule %s was removed from the executing instance by a listener: %v", kb, mid, res3.Panicked))
+					} else if removedAt >= 0 {
+						for _, ev := range rec3.Events[removedAt:] {
+							if (ev.Kind == obs.EvExec || ev.Kind == obs.EvEval) && (ev.Rule == mid || strings.HasPrefix(ev.Rule, "Deleted_")) {
+								v = append(v, fmt.Sprintf("%s: rule %s was removed from the executing instance (listener callback at the start of cycle 2), yet %s followed", kb, mid, ev))
+								break
+							}
+						}
+					}
+				}
+			}
 			final := obs.Capture(s2, dc2)
 			j, _ := final.JSON["J"].(map[string]interface{})
 			for _, n := range names {
@@ -326,7 +355,7 @@ func (w *c16World) invariant(instRemove map[int]string) []string {
 }
 
 func TestC16(t *testing.T) {
-	col := stats.New("C16", "stateful (model-based) generation over one library holding up to three knowledge bases (kbA/1, kbA/2, kbB/1): histories of up to 10 operations - build a resource of 1-3 generated rules (fresh names, names of removed rules = re-build with new text, duplicate names inside the resource or against active rules, half of the latter with the identical text of the rule in force), remove a rule through the library, remove it through the blueprint knowledge base, remove it from one instance only, store+load the knowledge base into the same library with overwrite on/off - against a model kb -> name -> rule text in force. Every rule writes its own JSON sink and retracts itself, so results are order-independent. Invariant after every step, for every knowledge base and 2 fact states: a duplicate build returned an error and left the model's rule in force; a new instance can be created; it has exactly one non-deleted entry per active name; FetchMatchingRules, the listener events and the sinks written by Execute involve exactly the model's active rules and agree with each rule's own text built alone; knowledge bases do not influence one another. Non-trivial: the history contains remove->re-build, remove->store/load or a double removal of one name. Distinct by the history.")
+	col := stats.New("C16", "stateful (model-based) generation over one library holding up to three knowledge bases (kbA/1, kbA/2, kbB/1): histories of up to 10 operations - build a resource of 1-3 generated rules (fresh names, names of removed rules = re-build with new text, duplicate names inside the resource or against active rules, half of the latter with the identical text of the rule in force), remove a rule through the library, remove it through the blueprint knowledge base, remove it from one instance only (before an Execute, or from a listener callback in the middle of one), store+load the knowledge base into the same library with overwrite on/off - against a model kb -> name -> rule text in force. Every rule writes its own JSON sink and retracts itself, so results are order-independent. Invariant after every step, for every knowledge base and 2 fact states: a duplicate build returned an error and left the model's rule in force; a new instance can be created; it has exactly one non-deleted entry per active name; FetchMatchingRules, the listener events and the sinks written by Execute involve exactly the model's active rules and agree with each rule's own text built alone; knowledge bases do not influence one another. Non-trivial: the history contains remove->re-build, remove->store/load or a double removal of one name. Distinct by the history.")
 	defer col.Flush()
 	_ = flag.Set("rapid.steps", "10")
 	stCfg := gen.StateCfg{D: gen.Small, JSON: true, Top: true}
@@ -356,7 +385,12 @@ func TestC16(t *testing.T) {
 			if op.Op == "removeFromInstance" {
 				instRemove[op.KB] = op.Name
 			}
+			c16MidRemove = nil
+			if op.Op == "removeDuringExecute" {
+				c16MidRemove = map[int]string{op.KB: op.Name}
+			}
 			v = append(v, w.invariant(instRemove)...)
+			c16MidRemove = nil
 			nt := flags["rebuild_after_remove"] || flags["storeload_after_remove"] || flags["double_removal"]
 			var labels []string
 			labels = append(labels, "op:"+op.Op)
@@ -445,6 +479,11 @@ func TestC16(t *testing.T) {
 				name := pickName(rt, kb)
 				step(c16Op{Op: "removeFromInstance", KB: kb, Name: name})
 			},
+			"removeDuringExecute": func(rt *rapid.T) {
+				kb := pickKB(rt)
+				name := pickName(rt, kb)
+				step(c16Op{Op: "removeDuringExecute", KB: kb, Name: name})
+			},
 			"storeLoad": func(rt *rapid.T) {
 				kb := pickKB(rt)
 				if len(w.model.removed[kb]) > 0 {
@@ -509,7 +548,12 @@ func init() {
 				if op.Op == "removeFromInstance" {
 					instRemove[op.KB] = op.Name
 				}
+				c16MidRemove = nil
+				if op.Op == "removeDuringExecute" {
+					c16MidRemove = map[int]string{op.KB: op.Name}
+				}
 				v = append(v, w.invariant(instRemove)...)
+				c16MidRemove = nil
 				if len(v) > 0 {
 					return fmt.Errorf("%s", strings.Join(v, "; "))
 				}
